@@ -479,6 +479,66 @@ def gen_fifo(rng):
     return normalise({"cfg": cfg, "steps": sc.steps, "flavour": "fifo"})
 
 
+def gen_listener_drop(rng):
+    """Connectors (remote, same host, 127.0.0.1) get queued at a listener; it accepts some
+    of them (or none), is dropped, possibly re-bound; everybody polls; late connectors meet
+    the new listener or nobody."""
+    n = rng.choice([2, 2, 3])
+    cfg = base_cfg(rng, n, cap=rng.choice([3, 4, 5]))
+    sc = Script(cfg)
+    pairs = [(a, b) for b in range(n) for a in range(b)]
+    held = rng.random() < 0.8
+    if held:
+        for (a, b) in pairs:
+            sc.ctl(0, ["hold", a, b])
+    srv = rng.randrange(n)
+    sc.cmd(0, srv, ["bind", 1, "unspec", 9000])
+    k = rng.randrange(2, min(cfg["cap"], 4) + 1)
+    conns = []
+    for ci in range(1, k + 1):
+        h = rng.randrange(n)
+        dst = {"h": srv} if h != srv else rng.choice([{"h": srv}, "loop", "loop"])
+        t0 = rng.choice([1, 1, 2])
+        sc.cmd(t0, h, ["connect", ci, dst, 9000])
+        conns.append((ci, h, t0))
+    t = 3
+    if held:
+        for ci, h, t0 in conns:
+            if h != srv and rng.random() < 0.85:
+                sc.ctl(t, ["deliver", h, srv, 0])
+                t += rng.choice([0, 1])
+    t += 2
+    sid = 100
+    nacc = rng.choice([0, 0, 1, 2])
+    for i in range(nacc):
+        sc.cmd(t, srv, ["accept", 1, sid])
+        sid += 1
+    t += 1
+    sc.cmd(t, srv, ["drop_listener", 1])
+    tdrop = t
+    rebind = rng.random() < 0.6
+    if rebind:
+        sc.cmd(t + rng.choice([0, 1, 2]), srv, ["bind", 2, "unspec", 9000])
+    for ci, h, t0 in conns:
+        for dt in (1, 3):
+            sc.cmd(tdrop + dt, h, ["poll", ci])
+        sc.cmd(tdrop + 3, h, ["try_write", ci, nonce(ci)])
+    late = k + 1
+    hl = rng.randrange(n)
+    sc.cmd(tdrop + 3, hl, ["connect", late, ({"h": srv} if hl != srv else "loop"), 9000])
+    if held and hl != srv:
+        sc.ctl(tdrop + 4, ["deliver", hl, srv, 0])
+        sc.ctl(tdrop + 5, ["deliver", hl, srv, 0])
+    if rebind:
+        sc.cmd(tdrop + 6, srv, ["accept", 2, sid])
+        sc.cmd(tdrop + 7, srv, ["accept", 2, sid + 1])
+    sc.cmd(tdrop + 8, hl, ["poll", late])
+    for h in range(n):
+        sc.cmd(tdrop + 9, h, ["count"])
+    sc.step(tdrop + 10)
+    return normalise({"cfg": cfg, "steps": sc.steps, "flavour": "listener-drop"})
+
+
 def gen_residue(rng):
     """Refused and cancelled connects in a row on a tiny ephemeral range: the
     table must be empty again each time and the ports must not run out."""
